@@ -2,7 +2,7 @@
 (* itertools.shuffle_buffer (itertools.py:97-135, async twin :54-94) as a step machine over an abstract     *)
 (* source.  Source element number k is the number k (finite source 1..N) or, for the cyclic source of      *)
 (* period N used by repeating iteration, epoch * 100 + position.  Random choices are nondeterministic.     *)
-EXTENDS Naturals, Sequences, FiniteSets, TLC
+EXTENDS Naturals, Sequences, FiniteSets
 
 CONSTANTS N,        \* length of the source (period when Cyclic)
           B,        \* buffer_size (>= 1)
